@@ -492,6 +492,44 @@ theorem others_untouched (ds : Dataset) (coords : List String) (pd dts : Opt) (o
   · show d ∉ u.dims
     exact hnodepth c hc cv hg.found d (by simp [hg.dims])
 
+/-- **Error branches.** A listed name that is not a variable of the dataset
+(`name_to_data_array`: `ValueError`), or a listed variable that is not one-dimensional
+("Can't normalize multidimensional depth variable"), makes the call raise — whatever else is
+in the list and whatever the options. -/
+theorem normalize_rejects (ds : Dataset) (coords : List String) (pd dts : Opt) (c : String) (hc : c ∈ coords)
+    (hbad : ds.find c = none ∨ ∃ cv, ds.find c = some cv ∧ ∀ d, cv.dims ≠ [d]) :
+    normalize ds coords pd dts = none := by
+  have hstep : ∀ S, normStep ds pd dts S c = none := by
+    intro S
+    unfold normStep
+    rcases hbad with h | ⟨cv, h, hd⟩
+    · simp [h]
+    · rw [h]
+      show (match cv.dims with
+        | [dim] => _
+        | _ => none) = none
+      split
+      · rename_i dim hdim
+        exact absurd hdim (hd dim)
+      · rfl
+  have hloop : ∀ (cs : List String), c ∈ cs → ∀ S w, normLoop ds pd dts cs S w = none := by
+    intro cs
+    induction cs with
+    | nil => intro h; simp at h
+    | cons x xs ih =>
+      intro hmem S w
+      unfold normLoop
+      by_cases hx : x = c
+      · subst hx; simp [hstep S]
+      · have hm : c ∈ xs := by
+          rcases List.mem_cons.mp hmem with h | h
+          · exact absurd h.symm hx
+          · exact h
+        cases hs : normStep ds pd dts S x with
+        | none => rfl
+        | some r => exact ih hm r.1 (w ++ r.2)
+  exact hloop coords hc ds []
+
 /-! ### Non-vacuity: a concrete dataset satisfies the hypotheses
 
 Two depth coordinates on different dimensions — `zc(k)` positive-up, shallow first, with a
